@@ -218,13 +218,29 @@ theorem C07_eventually_partial (c : Cfg) (tr : Trace) (hc : carveLoss c {} tr = 
 def lostIn (c : Cfg) (tr : Trace) (i : Nat) : Bool :=
   (runO c {} tr).acked.contains i && tot (runO c {} tr) i == 0
 
-/-- (b′) queue-full drop with the WAL on, current tree: rows 5,6 are acknowledged and only in the WAL; the
-flag IS raised now (repair B), but no tick comes before the rotated file is older than safeAge, and the
-flag branch purges before it replays -/
+/-- the tree between repairs B/C and 945541f (named pre-fix configuration) -/
+def cfgPre945 (wal : Bool) : Cfg := { cfgGen wal with facts := Facts.pre945 }
+
+/-- **pending failure ⇒ no age purge (945541f), full strength**: for every configuration carrying the
+generated facts and every state with the flush-failure flag up, the maintenance tick is exactly "replay
+every old-enough rotated file, then clear the flag": no file leaves the disk without its entries having
+been handed to the buffer (classes (b′) and (c): outage or overflow longer than safeAge). -/
+theorem C07_pending_failure_tick_never_age_purges (c : Cfg) (hf : c.facts = Arc.Generated.C07.facts)
+    (hw : c.walOn = true) (s : St) (hs : s.flag = true) :
+    tick c s = { replayFiles c c.minFileAge s with flag := false } := by
+  have h : c.facts.tickFlag = [.replay, .reset] := by rw [hf]; decide
+  unfold tick
+  simp [hw, hs, h, tickAct]
+
+/-- (b′) queue-full drop with the WAL on: rows 5,6 are acknowledged and only in the WAL; the flag is
+raised (repair B), no tick comes before the rotated file is older than safeAge -/
 def traceQueueFull : Trace := noObs [.restart, .hold, .write 0 [r 1 0, r 2 0], .write 0 [r 3 0, r 4 0],
   .write 0 [r 5 0, r 6 0], .unhold, .adv 310, .write 1 [r 7 0], .adv 1810, .tick]
-theorem C07_eventually_witness_queue_full_purged_before_replay :
-    lostIn (cfgGen true) traceQueueFull 5 = true := by decide
+/-- history: before 945541f the flag branch purged first and rows 5,6 were lost; now they are replayed and
+stored exactly once -/
+theorem C07_queue_full_long_gap_fixed :
+    lostIn (cfgPre945 true) traceQueueFull 5 = true ∧ lostIn (cfgGen true) traceQueueFull 5 = false
+      ∧ cnt (runO (cfgGen true) {} traceQueueFull).stored 5 = 1 := by decide
 
 /-- (b) same overflow, the tick comes in time (file rotated, younger than safeAge), then a graceful
 shutdown -/
@@ -236,10 +252,13 @@ theorem C07_queue_full_flag_effect :
     lostIn (cfgPre true) traceQueueFullShort 5 = true ∧ lostIn (cfgGen true) traceQueueFullShort 5 = false
       ∧ cnt (runO (cfgGen true) {} traceQueueFullShort).stored 5 = 1 := by decide
 
-/-- (c) outage longer than safeAge: the tick purges the rotated file before it replays -/
+/-- (c) outage longer than safeAge, then a tick -/
 def traceLongOutage : Trace := noObs [.restart, .mode (some 0), .write 0 [r 1 0, r 2 0], .adv 310,
   .write 1 [r 3 0], .adv 1810, .mode none, .tick]
-theorem C07_eventually_witness_purge_before_replay : lostIn (cfgGen true) traceLongOutage 1 = true := by decide
+/-- history: before 945541f the tick purged the rotated file before replaying it; now rows 1,2 are stored -/
+theorem C07_long_outage_fixed :
+    lostIn (cfgPre945 true) traceLongOutage 1 = true ∧ lostIn (cfgGen true) traceLongOutage 1 = false
+      ∧ cnt (runO (cfgGen true) {} traceLongOutage).stored 1 = 1 := by decide
 
 /-- (e) graceful shutdown: the purge hook runs before `ArrowBuffer.Close`, whose final flush fails -/
 def traceShutdown : Trace := noObs [.restart, .write 0 [r 1 0], .mode (some 0), .shutdown 0]
@@ -267,7 +286,7 @@ theorem C07_eventually_witness_replay_during_outage : lostIn (cfgGen true) trace
 -- non-vacuity of the carve-out: outage, rotation, replay by the tick — nothing lossy, row 1 ends in Parquet
 example : carveLoss (cfgGen true) {} (noObs [.restart, .mode (some 0), .write 0 [r 1 0, r 2 0], .mode none,
     .adv 310, .write 1 [r 3 0], .adv 10, .tick]) = true := by decide
-example : carveLoss (cfgGen true) {} traceLongOutage = false := by decide
+example : carveLoss (cfgGen true) {} traceShutdown = false := by decide
 
 /-- time passing, stalling the WAL writer, parking the worker and switching the storage mode never lose
 anything by themselves -/
@@ -360,20 +379,18 @@ theorem C07_stall_flags_and_replays :
 
 /-! ## what the small repairs buy (facts edited, same traces) -/
 
-/-- the two repairs NOT applied: A (replay before purge) and D (purge after the buffer close) -/
+/-- the repair NOT applied (fix-1): purge after the buffer close, skipped while the flag is up; Close raises
+the flag when it drops queued tasks -/
 def Facts.repaired : Facts :=
-  { Facts.current with tickFlag := [.replay, .purge, .reset], shutdown := [.bufClose, .purgeAll, .walClose] }
+  { Facts.current with shutdown := [.bufClose, .purgeAll, .walClose], purgeGuardedByFlag := true,
+                       closeDropSetsFlag := true }
 
 def cfgRep (wal : Bool) : Cfg := { cfgGen wal with facts := Facts.repaired }
 
-/-- A would stop the losses (b′) and (c) — at the price of replaying everything (duplicates, the reason the
-maintainers purge first); the order D alone does not help (e): the purge must also be skipped when the
-final flush failed; (h) (i) and the duplicates remain — they need the purge / delete-after-replay to
-depend on what reached Parquet -/
+/-- fix-1 would stop the shutdown losses (e) (f) — the kept WAL is replayed at restart (duplicates of what
+had been stored); (h) (i) remain: they need the purge / delete-after-replay to depend on what reached Parquet -/
 theorem C07_repairs_effect :
-    lostIn (cfgRep true) traceQueueFull 5 = false ∧ lostIn (cfgRep true) traceLongOutage 1 = false
-      ∧ cnt (runO (cfgRep true) {} traceLongOutage).stored 3 = 2
-      ∧ lostIn (cfgRep true) traceShutdown 1 = true ∧ lostIn (cfgRep true) traceFlagReset 1 = true
-      ∧ lostIn (cfgRep true) traceReplayOutage 1 = true := by decide
+    lostIn (cfgRep true) traceShutdown 1 = false ∧ lostIn (cfgRep true) traceCloseDrop 3 = false
+      ∧ lostIn (cfgRep true) traceFlagReset 1 = true ∧ lostIn (cfgRep true) traceReplayOutage 1 = true := by decide
 
 end Arc.C07
